@@ -24,6 +24,8 @@ pub struct Monitor {
     pub samples: Vec<Value>,
     pub violations: Vec<Violation>,
     pub hook_events: u64,
+    /// named sets of fingerprints whose sizes are reported (e.g. distinct iteration orders seen)
+    pub distinct: BTreeMap<String, HashSet<u64>>,
     pub replay_mode: bool,
     max_samples: usize,
     max_violations: usize,
@@ -57,6 +59,9 @@ impl Monitor {
     /// something counted but deliberately not judged
     pub fn observe(&mut self, name: &str) {
         *self.observations.entry(name.to_string()).or_insert(0) += 1;
+    }
+    pub fn distinct(&mut self, set: &str, fp: u64) {
+        self.distinct.entry(set.to_string()).or_default().insert(fp);
     }
     pub fn want_sample(&self) -> bool {
         self.samples.len() < self.max_samples
@@ -92,6 +97,7 @@ impl Monitor {
             "observations": self.observations,
             "samples": self.samples,
             "hook_events": self.hook_events,
+            "distinct": self.distinct.iter().map(|(k, v)| (k.clone(), v.iter().cloned().collect::<Vec<u64>>())).collect::<BTreeMap<_, _>>(),
             "violations": self.violations.iter().map(|v| json!({
                 "case": v.case, "signature": v.signature, "detail": v.detail
             })).collect::<Vec<_>>(),
